@@ -599,7 +599,8 @@ class LimitRuleRun(Harness):
     reach = ("nontrivial", "non-target-order-accepted", "fill-on-target")
     bounds = {"quick": "2 markets, target sets {M0},{M1},{M0,M1}, rule listed in session 0 or 1 of two 1-step sessions, "
                        "2 agents (buyer, seller) quoting once each at t=1 (one case at t=0, one with market orders) on a "
-                       "solver-chosen market, price in [1,1000]",
+                       "solver-chosen market, price in [1,1000]; two rules with their own targets and solver-chosen rates; "
+                       "an order-mistake shock on the target market declared after or before the rule",
               "thorough": "adds quoting over two steps"}
     assumptions = (rn.REDUCTION_NOTE,
                    "PriceLimitRule.setup() is given a concrete float rate; the attribute is overwritten with a solver real in (0,1)",)
@@ -615,6 +616,12 @@ class LimitRuleRun(Harness):
         # an order-mistake shock on a target market while the rule is active (the replaced order must be clipped too)
         out.append({"targets": ["M0"], "where": 0, "n1": 1, "active": [1, 1], "acts": ["limit"], "only_m0": True,
                     "mistake": True})
+        # the same with the shock declared before the rule and the probe
+        out.append({"targets": ["M0"], "where": 0, "n1": 1, "active": [1, 1], "acts": ["limit"], "only_m0": True,
+                    "mistake": True, "mistake_first": True})
+        # two rules with their own targets and rates
+        out.append({"targets": ["M0"], "targets2": ["M1"], "where": 0, "n1": 1, "active": [1, 1], "acts": ["limit"]})
+        out.append({"targets": ["M1"], "targets2": ["M0"], "where": 1, "n1": 1, "active": [1, 1], "acts": ["limit"]})
         out.append({"targets": ["M0"], "where": 0, "n1": 1, "active": [1, 1], "acts": ["limit", "market"]})
         out.append({"targets": ["M0"], "where": 0, "n1": 1, "active": [0, 1], "acts": ["limit"], "only_m0": True})
         if tier == "thorough":
@@ -632,8 +639,14 @@ class LimitRuleRun(Harness):
             sessions[case["where"]].setdefault("events", []).append("RULE")
         extra = {"RULE": {"class": "PriceLimitRule", "targetMarkets": case["targets"], "triggerChangeRate": 0.5},
                  "PROBE": {"class": "ProbeAll"}}
+        if case.get("targets2"):
+            sessions[case["where"]]["events"].append("RULE2")
+            extra["RULE2"] = {"class": "PriceLimitRule", "targetMarkets": case["targets2"], "triggerChangeRate": 0.25}
         if case.get("mistake"):
-            sessions[0]["events"].append("MISTAKE")
+            if case.get("mistake_first"):
+                sessions[0]["events"].insert(0, "MISTAKE")
+            else:
+                sessions[0]["events"].append("MISTAKE")
             extra["MISTAKE"] = {"class": "OrderMistakeShock", "target": "M0", "triggerTime": 1, "priceChangeRate": -0.5,
                                 "orderVolume": 1, "orderTimeLength": 2}
         st = rn.base_settings(n_agents=2 if not case.get("hft") else 1, n_hft=case.get("hft", 0), sessions=sessions,
@@ -658,12 +671,15 @@ class LimitRuleRun(Harness):
         # with orders in step 0 the reference price itself is a solver term: the rate is then a concrete number
         # so that the band stays linear in the solver variables
         r = g.real("r", 0, 1, lo_strict=True, hi_strict=True) if case["active"][0] > 0 and not case.get("hft") else 0.05
+        r2 = g.real("r2", 0, 1, lo_strict=True, hi_strict=True) if case.get("targets2") else None
         replaced = {"n": 0}
         for e in sim.events:
             if isinstance(e, PriceLimitRule):
-                e.trigger_change_rate = r
+                e.trigger_change_rate = r2 if e.name == "RULE2" else r
         ctx.runner._run()
-        tids = [sim.name2market[n].market_id for n in case["targets"]]
+        rate_of = {sim.name2market[n].market_id: r for n in case["targets"]}
+        rate_of.update({sim.name2market[n].market_id: r2 for n in case.get("targets2", [])})
+        tids = list(rate_of)
         for kind, aid, lg in ctx.events:
             if kind == "submitted":
                 o = [x for x in ctx.own_orders[aid] if x.order_id is not None and x.market_id == lg.market_id
@@ -675,14 +691,19 @@ class LimitRuleRun(Harness):
                                   "an event registered for every order (the recording probe listed next to the rule) "
                                   "was not called before this order was accepted")
                         p0 = p0_at[id(o)]
+                        r = rate_of[lg.market_id]
                         lo, hi = p0 * (1 - r), p0 * (1 + r)
-                        g.require(sand(lg.price > lo - 1, lg.price < hi + 1), "C15.accepted-price-outside-band+tick",
-                                  f"order accepted on target market {lg.market_id} outside the band widened by one tick")
                         inside = sand(ask["price"] >= lo, ask["price"] <= hi)
                         if case.get("mistake") and lg.time == 1 and replaced["n"] == 0:
                             replaced["n"] = 1      # this order was replaced by the shock (C14): only the band applies
                             g.note("mistake-order-on-target")
+                            g.require(sand(lg.price > lo - 1, lg.price < hi + 1),
+                                      "C15.order-replaced-by-mistake-shock-outside-band+tick",
+                                      f"the order written by the order-mistake shock was accepted on target market "
+                                      f"{lg.market_id} outside the band widened by one tick")
                         else:
+                            g.require(sand(lg.price > lo - 1, lg.price < hi + 1), "C15.accepted-price-outside-band+tick",
+                                      f"order accepted on target market {lg.market_id} outside the band widened by one tick")
                             g.require(sor(snot(inside), lg.price == ask["price"]), "C15.inside-band-price-changed")
                         if not bool(inside):
                             g.note("nontrivial")
@@ -698,6 +719,7 @@ class LimitRuleRun(Harness):
                 if lg.time > 0:
                     # both orders of the pair were clipped against the final time-0 price (or are market orders
                     # matched at a clipped price); during step 0 the reference itself moves with every trade
+                    r = rate_of[lg.market_id]
                     lo, hi = p0_fill[id(lg)] * (1 - r), p0_fill[id(lg)] * (1 + r)
                     resting_from_step0 = False
                     for aid2, os_ in ctx.own_orders.items():
